@@ -43,8 +43,9 @@ def make_cases(ctx, n_schemas, depth, zoo_rate=0.3, perturb=10, modes=("Plain",)
     every depth, zoo injections at random positions, unrelated values."""
     r = ctx.rng
     cases = []
-    for _ in range(n_schemas):
-        ssrc, s = gen.gen_schema(r, r.randint(0, depth), opts)
+    directed = [(src, gen.build(src)) for src in gen.FALSY_SCHEMAS] if not (opts or {}).get("no_directed") else []
+    for j in range(n_schemas + len(directed)):
+        ssrc, s = directed[j] if j < len(directed) else gen.gen_schema(r, r.randint(0, depth), opts)
         vals = []
         for _ in range(2):
             try:
